@@ -522,7 +522,11 @@ fn classify_panic(what: &str, e: Caught) -> Vec<(String, Value)> {
     match &e {
         Caught::Panic { loc, .. } if loc.contains("harness/src") => vec![(format!("HARNESS:{}", e.text()), json!(e.text()))],
         Caught::Oracle(m) => vec![(format!("ORACLE:{m}"), json!(m))],
-        _ => vec![(format!("{what}:{}", e.site()), json!(e.text()))],
+        _ => {
+            let site = e.site();
+            let site = site.split(": the len").next().unwrap_or(&site).to_string();
+            vec![(format!("{what}:{site}"), json!(e.text()))]
+        }
     }
 }
 
@@ -1406,75 +1410,230 @@ fn report(sig: &str, family: &'static str, index: u64, detail: impl FnOnce() -> 
     }
 }
 
+/// One history being executed and judged (random or scripted).
+struct Run {
+    ex: Exec,
+    history: Vec<Op>,
+    applied: usize,
+    family: &'static str,
+    index: u64,
+    profile: String,
+    reported: BTreeSet<String>,
+}
+
+enum Feed {
+    Continue,
+    Stop,
+    Invalid(String),
+}
+
+impl Run {
+    fn new(family: &'static str, index: u64, profile: String) -> Run {
+        Run { ex: Exec::new(), history: vec![], applied: 0, family, index, profile, reported: BTreeSet::new() }
+    }
+
+    fn feed(&mut self, op: Op) -> Feed {
+        let c = ctx();
+        let (family, index) = (self.family, self.index);
+        self.history.push(op.clone());
+        let o = self.ex.step(&op);
+        if let Some(why) = o.invalid {
+            self.history.pop();
+            return Feed::Invalid(why);
+        }
+        self.applied += 1;
+        let step = self.history.len() - 1;
+        for t in &o.trouble {
+            if t.starts_with("HARNESS:") || t.starts_with("model panicked") {
+                c.harness_error(&format!("{family}#{index} step {step}: {t}"));
+            } else {
+                c.inconclusive("oracle-error", json!({"family": family, "index": index, "step": step, "msg": t}));
+            }
+        }
+        for v in &o.viols {
+            // one report per signature and history (occurrences = histories showing it); the
+            // number of individual steps is kept in the counters
+            *self.ex.stats.entry(format!("steps-showing:{}", v.sig)).or_default() += 1;
+            if !self.reported.insert(v.sig.clone()) {
+                continue;
+            }
+            report(&v.sig, family, index, || {
+                let minimal = shrink(&self.history, &v.sig);
+                json!({
+                    "what": "operation outcome or observable state differs from the reference model",
+                    "step": step,
+                    "operation": format!("{op:?}"),
+                    "fatal_for_history": v.fatal,
+                    "mismatches_at_that_step_of_the_full_history": v.detail,
+                    "history": ops_json(&self.history),
+                    "minimised_history": ops_json(&minimal),
+                    "state_after": {"model": model_dump(&self.ex.model), "vec": self.ex.vecb.dump(), "hash": self.ex.hashb.dump()},
+                    "profile": self.profile,
+                })
+            });
+        }
+        if o.stop {
+            Feed::Stop
+        } else {
+            Feed::Continue
+        }
+    }
+
+    fn finish(self, ended_by: &str) {
+        let c = ctx();
+        let ex = &self.ex;
+        for (k, v) in &ex.stats {
+            c.count(k, *v);
+        }
+        c.count(&format!("history-ended:{ended_by}"), 1);
+        c.count("operations-applied", self.applied as u64);
+        c.maximum("max_history_length", self.applied as u64);
+        c.maximum("max_vertices", ex.max_vertices as u64);
+        c.maximum("max_holes_vec(vindex-num_vertices)", ex.max_holes_vec as u64);
+        c.maximum("max_gap_hash(vindex-num_vertices)", ex.max_gap_hash as u64);
+        let reused = ex.stats.get("vec:new-vertex:hole-reused(id<vindex)").copied().unwrap_or(0);
+        let removed = ex.stats.get("op:remove_vertex").copied().unwrap_or(0);
+        let nontrivial = self.applied >= 20 && reused >= 1 && removed >= 1;
+        let h = hash_str(&format!("{:?}", self.history));
+        c.case(self.family, if nontrivial { Some(h) } else { None });
+        let (family, index, applied) = (self.family, self.index, self.applied);
+        c.sample_n(4, || json!({"family": family, "index": index, "profile": self.profile, "applied": applied, "first_operations": ops_json(&self.history[..self.history.len().min(25)])}));
+    }
+}
+
 /// Generate and run one history.
 fn run_history(family: &'static str, index: u64, r: &mut Rng, named_beyond: bool, max_len: usize) {
-    let c = ctx();
     let prof = Profile::draw(r, named_beyond, max_len);
-    let mut ex = Exec::new();
+    let mut run = Run::new(family, index, format!("{prof:?}"));
     let mut next_m: M = 0;
-    let mut history: Vec<Op> = vec![];
-    let mut applied = 0usize;
     let mut ended_by = "length";
-    'hist: while applied < prof.len {
-        let mut ops = gen_ops(r, &ex.model, &ex.named_view(), &prof, &mut next_m);
-        if applied + ops.len() >= prof.len && r.chance(0.3) {
+    'hist: while run.applied < prof.len {
+        let mut ops = gen_ops(r, &run.ex.model, &run.ex.named_view(), &prof, &mut next_m);
+        if run.applied + ops.len() >= prof.len && r.chance(0.3) {
             ops = vec![Op::MakeBipartite];
         }
         for op in ops {
-            history.push(op.clone());
-            let o = ex.step(&op);
-            if let Some(why) = &o.invalid {
-                c.harness_error(&format!("generator emitted an invalid operation {op:?}: {why}"));
-                break 'hist;
-            }
-            applied += 1;
-            for t in &o.trouble {
-                if t.starts_with("HARNESS:") || t.starts_with("model panicked") {
-                    c.harness_error(&format!("{family}#{index} step {}: {t}", history.len() - 1));
-                } else {
-                    c.inconclusive("oracle-error", json!({"family": family, "index": index, "step": history.len() - 1, "msg": t}));
+            let terminal = matches!(op, Op::MakeBipartite);
+            match run.feed(op.clone()) {
+                Feed::Continue => {}
+                Feed::Stop => {
+                    ended_by = if terminal { "make_bipartite(terminal)" } else { "stopped-by-violation-or-trouble" };
+                    break 'hist;
                 }
-            }
-            for v in &o.viols {
-                report(&v.sig, family, index, || {
-                    let minimal = shrink(&history, &v.sig);
-                    json!({
-                        "what": "operation outcome or observable state differs from the reference model",
-                        "step": history.len() - 1,
-                        "operation": format!("{op:?}"),
-                        "fatal_for_history": v.fatal,
-                        "mismatches_at_that_step_of_the_full_history": v.detail,
-                        "history": ops_json(&history),
-                        "minimised_history": ops_json(&minimal),
-                        "state_after": {"model": model_dump(&ex.model), "vec": ex.vecb.dump(), "hash": ex.hashb.dump()},
-                        "profile": format!("{prof:?}"),
-                    })
-                });
-            }
-            if o.stop {
-                ended_by = if matches!(op, Op::MakeBipartite) { "make_bipartite(terminal)" } else { "stopped-by-violation-or-trouble" };
-                break 'hist;
+                Feed::Invalid(why) => {
+                    ctx().harness_error(&format!("generator emitted an invalid operation {op:?}: {why}"));
+                    ended_by = "harness-error";
+                    break 'hist;
+                }
             }
         }
     }
-    // evidence
-    for (k, v) in &ex.stats {
-        c.count(k, *v);
-    }
-    c.count(&format!("history-ended:{ended_by}"), 1);
-    c.count("operations-applied", applied as u64);
-    c.maximum("max_history_length", applied as u64);
-    c.maximum("max_vertices", ex.max_vertices as u64);
-    c.maximum("max_holes_vec(vindex-num_vertices)", ex.max_holes_vec as u64);
-    c.maximum("max_gap_hash(vindex-num_vertices)", ex.max_gap_hash as u64);
-    let reused = ex.stats.get("vec:new-vertex:hole-reused(id<vindex)").copied().unwrap_or(0);
-    let removed = ex.stats.get("op:remove_vertex").copied().unwrap_or(0);
-    let nontrivial = applied >= 20 && reused >= 1 && removed >= 1;
-    let h = hash_str(&format!("{history:?}"));
-    c.case(family, if nontrivial { Some(h) } else { None });
-    c.sample_n(4, || json!({"family": family, "index": index, "profile": format!("{prof:?}"), "applied": applied, "first_operations": ops_json(&history[..history.len().min(25)])}));
+    run.finish(ended_by);
 }
 
+/// Hand-written histories: every operation kind at least once, the named-insertion classes,
+/// every smart-edge case. They are judged exactly like generated ones.
+fn scripted_histories() -> Vec<Vec<Op>> {
+    use BasisElem::*;
+    use EType::{H, N};
+    use VType::{B, X, Z};
+    let d = |ty: VType, n: i64, dd: i64| MData { ty, phase: Ph::new(n, dd), vars: Par::default(), qubit: 0.0, row: 0.0 };
+    let av = |ty: VType, m: M| Op::AddVertex { ty, m };
+    let mut hs = vec![];
+    // 0: churn, holes, pack, named insertion into a hole and on a live id
+    hs.push(vec![
+        av(Z, 0), av(X, 1), av(Z, 2), av(B, 3),
+        Op::AddEdge { s: 0, t: 1 }, Op::AddEdgeWithType { s: 1, t: 2, e: H }, Op::AddEdgeWithType { s: 2, t: 3, e: N },
+        Op::InputsMut(ListEdit::Push(3)),
+        Op::RemoveVertex { m: 0 },
+        Op::AddVertexWithPhase { ty: Z, ph: (9, 4), m: 4 },
+        Op::AddEdgeSmart { s: 4, t: 1, e: H },
+        Op::RemoveVertex { m: 1 },
+        Op::AddNamed { v: 1, d: d(X, 1, 2), m: 5 },
+        Op::AddNamed { v: 1, d: d(Z, 0, 1), m: 6 },
+        Op::RemoveVertex { m: 4 },
+        Op::Pack { force: false },
+        Op::Pack { force: true },
+        Op::AddVertexWithData { d: d(Z, 1, 4), m: 7 },
+        Op::Clone { adopt: true, ttl: 3 },
+        Op::RemoveVertex { m: 7 },
+        Op::SetPhase { m: 2, ph: (-7, 4) },
+        Op::AddToPhase { m: 2, ph: (1, 2) },
+        Op::Subgraph { verts: vec![3, 2] },
+        Op::ToAdjoint,
+        Op::PlugInput { i: 0, b: Z1 },
+    ]);
+    // 1: all smart-edge cases, colour change, scalar edits
+    let mut h = vec![av(Z, 0), av(Z, 1), av(X, 2), av(X, 3)];
+    for (s, t) in [(0, 1), (2, 3), (0, 2), (3, 1)] {
+        for (e0, e) in [(N, N), (N, H), (H, N), (H, H)] {
+            h.push(Op::AddEdgeSmart { s, t, e: e0 });
+            h.push(Op::AddEdgeSmart { s: t, t: s, e });
+            h.push(Op::AddEdgeSmart { s, t, e: N });
+            h.push(Op::RemoveEdge { s, t });
+        }
+    }
+    // the last RemoveEdge of a Hopf case finds no edge: such steps are skipped as invalid
+    h.extend([
+        Op::AddEdgeSmart { s: 0, t: 0, e: H },
+        Op::AddEdgeSmart { s: 2, t: 2, e: N },
+        Op::AddEdge { s: 0, t: 2 },
+        Op::AddEdge { s: 2, t: 3 },
+        Op::XToZ,
+        Op::Scalar(ScalarEdit::MulSqrt2Pow(-3)),
+        Op::Scalar(ScalarEdit::MulPhase(3)),
+        Op::Scalar(ScalarEdit::MulBy([1, 1, 0, 0], -1)),
+        Op::MulScalarFactor { key: 5, s: ([0, 1, 0, 0], 0) },
+        Op::MulScalarFactor { key: 5, s: ([1, 0, 0, 1], 1) },
+        Op::Adjoint,
+        Op::Copy { adjoint: true, adopt: true },
+        Op::ToggleEdgeType { s: 0, t: 2 },
+        Op::SetEdgeType { s: 2, t: 3, e: EType::Wio },
+        Op::Scalar(ScalarEdit::Assign([0, 0, 1, 0], 2)),
+    ]);
+    hs.push(h);
+    // 2: named insertion at and beyond vindex, append, io lists, plugs, bare wire + make_bipartite
+    hs.push(vec![
+        Op::AddNamed { v: 0, d: d(B, 0, 1), m: 0 },
+        Op::AddNamed { v: 3, d: d(Z, 1, 4), m: 1 },
+        Op::AddNamed { v: 2, d: d(B, 0, 1), m: 2 },
+        av(Z, 3), av(B, 4), av(B, 5),
+        Op::AddEdge { s: 0, t: 1 }, Op::AddEdgeWithType { s: 1, t: 2, e: H }, Op::AddEdge { s: 1, t: 3 }, Op::AddEdge { s: 4, t: 5 },
+        Op::SetInputs(vec![0, 4]), Op::SetOutputs(vec![2, 5]),
+        Op::OutputsMut(ListEdit::Swap(0, 1)), Op::InputsMut(ListEdit::Insert(1, 3)), Op::InputsMut(ListEdit::Remove(1)),
+        Op::SetCoord { m: 1, x: 2.5, y: -1.0 }, Op::SetQubit { m: 3, q: 4.0 }, Op::SetRow { m: 3, r: 7.5 },
+        Op::SetVars { m: 1, vars: Par::new(&[0, 2], true) }, Op::AddToVars { m: 1, vars: Par::new(&[2, 3], true) },
+        Op::SetVertexType { m: 3, ty: VType::ZBox },
+        Op::Append { other: Other::Small { verts: vec![d(Z, 1, 8), d(X, 1, 1)], edges: vec![(1, 0, H)], scalar: ([0, 1, 0, 0], -1), cross: true }, new_ms: vec![6, 7] },
+        Op::Append { other: Other::SelfClone, new_ms: vec![8, 9, 10, 11, 12, 13, 14, 15] },
+        Op::PlugVertex { m: 0, b: X1 }, Op::PlugVertex { m: 3, b: SKIP },
+        Op::PlugOutputs(vec![SKIP, Z0]),
+        Op::Copy { adjoint: false, adopt: false },
+        Op::MakeBipartite,
+    ]);
+    hs
+}
+
+fn run_scripted(index: u64, ops: Vec<Op>) {
+    let mut run = Run::new("scripted", index, "scripted".into());
+    let mut ended = "length";
+    for op in ops {
+        let terminal = matches!(op, Op::MakeBipartite);
+        match run.feed(op) {
+            Feed::Continue => {}
+            Feed::Invalid(_) => *run.ex.stats.entry("scripted:skipped-invalid".into()).or_default() += 1,
+            Feed::Stop => {
+                ended = if terminal { "make_bipartite(terminal)" } else { "stopped-by-violation-or-trouble" };
+                break;
+            }
+        }
+    }
+    run.finish(ended);
+}
+
+/// Self-test of the harness parts only (no verdict about quizx may hide in here): the
+/// reference model, the expression pool, and the state comparison's ability to see a
+/// difference, exercised on a backend that is driven by three trivial calls.
 fn self_test() -> Result<(), String> {
     refgraph::self_test().map_err(|e| format!("refgraph: {e}"))?;
     let pool = expr_pool();
@@ -1488,33 +1647,28 @@ fn self_test() -> Result<(), String> {
             }
         }
     }
-    // the executor on a hand-written history must stay silent about state and find the same graph
-    let ops = vec![
-        Op::AddVertex { ty: VType::Z, m: 0 },
-        Op::AddVertex { ty: VType::X, m: 1 },
-        Op::AddEdge { s: 0, t: 1 },
-        Op::RemoveVertex { m: 0 },
-        Op::AddVertexWithPhase { ty: VType::Z, ph: (9, 4), m: 2 },
-        Op::AddEdgeSmart { s: 2, t: 1, e: EType::H },
-        Op::Pack { force: true },
-    ];
     let mut ex = Exec::new();
-    for op in &ops {
-        let o = ex.step(op);
-        if o.invalid.is_some() || !o.trouble.is_empty() || o.viols.iter().any(|v| v.fatal) {
-            return Err(format!("executor self-test failed at {op:?}: {:?} {:?} {:?}", o.invalid, o.trouble, o.viols));
+    for op in [Op::AddVertex { ty: VType::Z, m: 0 }, Op::AddVertex { ty: VType::X, m: 1 }, Op::AddEdge { s: 0, t: 1 }] {
+        let o = ex.step(&op);
+        if o.invalid.is_some() || !o.trouble.is_empty() {
+            return Err(format!("executor self-test failed at {op:?}: {:?} {:?}", o.invalid, o.trouble));
+        }
+        if o.viols.iter().any(|v| v.fatal) {
+            // quizx fails on the most basic calls: that is a finding, reported by the scripted family
+            return Ok(());
         }
     }
-    if ex.model.num_vertices() != 2 || ex.model.edge(1, 2) != Some(EType::H) || ex.model.v[&2].phase != Ph::new(1, 4) {
-        return Err("executor self-test: wrong final model".into());
+    for (what, wrong) in [
+        ("edge type", { let mut w = ex.model.clone(); w.set_edge_type(0, 1, EType::H).unwrap(); w }),
+        ("phase", { let mut w = ex.model.clone(); w.set_phase(0, Ph::new(1, 4)).unwrap(); w }),
+        ("missing edge", { let mut w = ex.model.clone(); w.remove_edge(0, 1).unwrap(); w }),
+        ("inputs", { let mut w = ex.model.clone(); w.inputs.push(1); w }),
+        ("scalar", { let mut w = ex.model.clone(); w.scalar = R::int(2); w }),
+    ] {
+        if check_state(&wrong, &ex.vecb, false).is_empty() || check_state(&wrong, &ex.hashb, false).is_empty() {
+            return Err(format!("state comparison does not notice a changed {what}"));
+        }
     }
-    // the comparison must notice a model/backend difference (sanity of the checker itself)
-    let mut wrong = ex.model.clone();
-    wrong.set_edge_type(1, 2, EType::N).unwrap();
-    if check_state(&wrong, &ex.vecb, false).is_empty() || check_state(&wrong, &ex.hashb, false).is_empty() {
-        return Err("state comparison does not notice a changed edge type".into());
-    }
-    let _ = BasisElem::SKIP;
     Ok(())
 }
 
@@ -1525,15 +1679,19 @@ pub fn run() {
         return;
     }
     c.set_rule(
-        "case = one generated history (20-400 operations of the public GraphLike interface) applied to vec_graph, hash_graph and the reference model with a full observable-state comparison after every operation; non-trivial when >= 20 operations were applied, at least one vertex was removed and the vector backend reused at least one hole; distinct = distinct operation lists (64-bit hash)",
+        "case = one history (generated: 20-400 operations of the public GraphLike interface; plus 3 scripted ones) applied to vec_graph, hash_graph and the reference model with a full observable-state comparison after every operation; non-trivial when >= 20 operations were applied, at least one vertex was removed and the vector backend reused at least one hole; distinct = distinct operation lists (64-bit hash)",
     );
     c.assume("reference model O5 (harness/src/oracle/refgraph.rs) implements the documented meaning of each operation (self-tested at start); exact scalar arithmetic O1");
     c.assume("harness policy: input/output lists only ever name live vertices (a vertex is taken off the lists before it is removed); plug_* only on boundary vertices with one neighbour; plug_inputs/plug_outputs with full-length lists (the short-list panic belongs to C11)");
     c.assume("add_edge_smart: the pi phase of an N||H pair is expected on the first argument (the calculus allows either end; the shared default method uses `s`)");
-    c.assume("append_graph/adjoint leave scalar *factors* alone, copy() keeps them: the documentation is silent; only the documented parts are demanded");
+    c.assume("append_graph/adjoint leave scalar *factors* alone (documentation silent); copy() is read as 'a copy of the graph': vertices, edges, inputs, outputs, scalar and scalar factors; subgraph_from_vertices is compared on vertices/data/edges only");
     c.assume("named insertion is issued only with ids that are free in both backends or live in both backends");
+    c.assume("make_bipartite is judged by a loose postcondition (same-colour Z/X edges split by one opposite-colour phase-0 spider, nothing else changes; new edge types left open) and ends the history");
     let t = c.tier;
-    let (n, max_len) = t.pick((1500usize, 400usize), (100_000usize, 400usize));
+    let scripted = scripted_histories();
+    let ns = scripted.len();
+    par_cases("scripted", ns, move |_r, i| run_scripted(i, scripted[i as usize].clone()));
+    let (n, max_len) = t.pick((12_000usize, 400usize), (400_000usize, 400usize));
     par_cases("hist-core", n, move |r, i| run_history("hist-core", i, r, false, max_len));
     par_cases("hist-named", n, move |r, i| run_history("hist-named", i, r, true, max_len));
     c.extra("exhaustive", json!(false));
